@@ -314,7 +314,7 @@ def make_config(rng, prog, how, tmpdir):
     def apply(d):
         nodes = {}
         for nid, xn in d.exec_nodes.items():
-            if type(xn).__name__ == "LazyExecNode" and rng.random() < 0.5 and ">!>" not in nid:
+            if type(xn).__name__ == "LazyExecNode" and (prog.get("config_all") or rng.random() < 0.5) and ">!>" not in nid:
                 nodes[nid] = dict(priority=rng.randint(-3, 3), is_sequential=rng.random() < 0.3)
         conf = dict(nodes=nodes, max_concurrency=rng.randint(1, 4))
         if how == "dict":
@@ -447,6 +447,12 @@ def _P(n, d):
 
 # fixed programs (run before the random ones): nested DAGs whose defaulted parameters are bound positionally
 CORPUS = [
+    # nodes flagged by two different items of one result, all reconfigured before the second run (flag AND key path survive)
+    dict(name="p", params=[_P("a0", None)], funs=[_fun(0, "idx", truths=[True, False]), _fun(1)], config_all=True,
+         stmts=[dict(op="call", f=0, args=[["param", 0]], kwargs={}, active=None),
+                dict(op="call", f=1, args=[["param", 0]], kwargs={}, active=["var", 0, [1]]),
+                dict(op="call", f=1, args=[["var", 0, [0]]], kwargs={}, active=["var", 0, [0]])],
+         ret=dict(shape="tuple", items=[["var", 1, []], ["var", 2, []]]), fails=[], maxc=2, is_async=False, subs=[]),
     # a nested DAG whose single return value is an INDEXED part of an inner result (tuple item / dict entry)
     dict(name="p", params=[_P("a0", None)], funs=[_fun(0), _fun(1)],
          stmts=[dict(op="sub", d=0, args=[["param", 0]], active=None), dict(op="sub", d=1, args=[["param", 0]], active=None), dict(op="call", f=0, args=[["var", 0, []], ["var", 1, []]], kwargs={}, active=None)],
@@ -540,6 +546,8 @@ def run(pid, tier, seed, res, p_sub=None, p_flag=None, only=None):
         argsets = [kvalue.gen_args(rng, prog) for _ in range(2)] if fixed_args is None else [fixed_args[pi], fixed_args[pi]]
         for ai, args in enumerate(argsets):
             how = rng.choice(CONFIGS) if ai == 1 else "none"
+            if ai == 1 and prog.get("config_all"):
+                how = "dict"  # this program is reconfigured for certain, every node of it
             config_how = how
             is_async = rng.random() < 0.35
             r = run_prog(prog, args, random.Random(rng.random()), controlled=rng.random() < 0.7, is_async=is_async, config=make_config(rng, prog, how, tmpdir))
